@@ -4,6 +4,7 @@ from .recvunit import RecvUnit, Shape, keep_for, RECV_MUTANTS
 from .sendunit import SendUnit, SEND_MUTANTS, keep_for as skeep
 from .mqunit import MQUnit
 from .lemmas import LemmaUnit
+from .assemblyunit import AssemblyUnit
 from .zmqmodel import ZMQ
 
 PROPERTY = 'C01'
@@ -41,5 +42,5 @@ r = RecvUnit({'C01'}, SQ, ST, keep=keep_for('C01.'))
 r.mutants = RECV_MUTANTS['C01']
 s = SendUnit(keep=skeep('C01.'))
 s.mutants = SEND_MUTANTS['C01']
-UNITS = [r, s, MQUnit(keep=keep_for('C01.')), LemmaUnit('C01.rejoin lemma', rejoin_lemmas)]
+UNITS = [r, s, MQUnit(keep=keep_for('C01.')), LemmaUnit('C01.rejoin lemma', rejoin_lemmas), AssemblyUnit()]
 UNITS[2].mutants = tuple(m for m in MQUnit.mutants if 'C01' in m[4])
